@@ -5,7 +5,7 @@
    follows from the exclusion from the published list (candidates are taken from it: C01) and is
    checked by the monitors of C01/C10; the interleaving with manager iterations is monitor-only. *)
 From Coq Require Import ZArith NArith Bool List.
-From Mysync Require Import Gtid.Interval Gtid.GtidSet Base.Prog Base.ProgFacts Base.Config
+From Mysync Require Import Proofs.SettleProofs Procs.Repair Gtid.Interval Gtid.GtidSet Base.Prog Base.ProgFacts Base.Config
   Procs.NodeOps Procs.ActiveNodes Procs.Switchover Procs.Manager Procs.Recovery Proofs.ManagerProofs Proofs.RecoveryProofs Proofs.PromotedProofs.
 Import ListNotations.
 Open Scope Z_scope.
@@ -48,3 +48,14 @@ Theorem C11_only_listed_hosts_are_promoted : forall cfg env sw mem tr o,
   forall e h, In e tr -> ev_call e = Sql h SSetWritable -> In h (se_active env).
 Proof. exact promoted_host_is_listed. Qed.
 Print Assumptions C11_only_listed_hosts_are_promoted.
+
+(* "a host found claiming to be master beside the recorded one is marked for recovery": the repair of such a host
+   (repairSlaveNode with a state that shows no replication channel) goes on to the marking protocol in every run that
+   does not crash - whatever stopping its replication and re-pointing it answered (a re-pointing that fails half way
+   leaves a host that no longer looks like a master; it must be marked in this very pass). *)
+Theorem C11_stale_master_is_always_marked : forall cfg env h ns mem tr o,
+  ns_is_master ns = true -> h <> re_master env ->
+  runs (repair_slave_node cfg env h ns mem) tr o -> (exists a, o = Done a) ->
+  exists e, In e tr /\ ev_site e = 20082 /\ ev_call e = DcsGet PActiveNodes.
+Proof. exact stale_master_marking_attempted. Qed.
+Print Assumptions C11_stale_master_is_always_marked.
